@@ -4,6 +4,7 @@ a property as OPEN known findings.  usage: tools/kf_add.py CNN key1 [key2 ...]  
 import glob, json, os, sys
 HERE = os.path.dirname(os.path.dirname(os.path.abspath(__file__)))
 pid, keys = sys.argv[1], set(sys.argv[2:])
+ALL = keys == {'ALL'}
 kf_path = os.path.join(HERE, 'known_findings.json')
 kf = json.load(open(kf_path))
 have = {f['key'] for f in kf['findings']}
@@ -11,8 +12,10 @@ found = {}
 for f in sorted(glob.glob(os.path.join(HERE, 'replays', pid, '*.json')), key=os.path.getmtime):
     p = json.load(open(f))
     k = p.get('finding_key')
-    if k in keys:
+    if k and (ALL or k in keys) and p.get('kind') == 'K4':
         found[k] = p
+if ALL:
+    keys = set(found)
 n = len([f for f in kf['findings'] if f['property'] == pid and f.get('status') == 'open'])
 for k in sorted(keys):
     if k in have:
